@@ -46,6 +46,16 @@ def main():
     if not args.prop:
         ap.error("property id required")
     prop = args.prop.upper()
+    # watchdog: the analyses are polynomial on the reviewed tree (seconds); a run that takes minutes is
+    # a checker defect and must end as one (exit 2), never hang the caller
+    import signal
+
+    def _timeout(signum, frame):
+        print("ERROR: checker exceeded its time budget (this is a checker defect, not a verdict)", file=sys.stderr)
+        os._exit(2)
+
+    signal.signal(signal.SIGALRM, _timeout)
+    signal.alarm(int(os.environ.get("VERIF_RULE_BUDGET_S", "600")) if args.tier == "quick" else 0)
     prog = Program(facts)
     check = Check(prop, args.tier, prog)
     try:
